@@ -30,7 +30,7 @@ PROPS = {
                 rule="runs with maxls 1..20 and maxfun from 1; non-trivial = >=2 iterations and a line search with >=2 trials; distinct by problem seed",
                 explanation="theorem C03_monotone over the driver model; bit-exact driver correspondence",
                 assumptions=COMMON_ASSUME),
-    "C04": dict(monitor=D1, level="proof", corr=["driver"], exhaustive=False,
+    "C04": dict(monitor=D1, level="proof", corr=["driver:budget", "driver:restart"], exhaustive=False,
                 rule="complete enumeration of the lattice maxiter{0,1,2,5} x maxfun{1,2,3,10} x maxls{1,2,20} x ftol x ftarget kinds x callback kinds (+ restart lattice) on several problems, plus random configurations; "
                      "every case is non-trivial; distinct by (problem, message, configuration)",
                 explanation="theorem C04_report over the driver model (all oracles), generated stop tests and message table; bit-exact driver correspondence",
